@@ -177,7 +177,7 @@ def compatible(ta, tb):
     return True
 
 
-def run(fx, v):
+def run(fx, v, prop='C17'):
     done = set()
     n_cls = {}
     for f in fx.fns:
@@ -221,7 +221,7 @@ def run(fx, v):
             v.check(bad is None and pairs > 0, 'R-EFFECT', inst,
                     '%d compatible path pair(s): byte_size() equals the bytes appended by encode()' % pairs if bad is None and pairs
                     else ('no comparable paths' if bad is None else 'byte_size() = %s but encode() appends %s' % (bad[0], bad[1])),
-                    key='C17:R-EFFECT:%s' % f.cls, where=g.file)
+                    key=prop + ':R-EFFECT:%s' % f.cls, where=g.file)
         except AnalysisBroken as e:
             raise AnalysisBroken('%s: %s' % (inst, e))
     for cls in CLASSES:
@@ -250,7 +250,7 @@ def run(fx, v):
             each = any(callee_name(c) == 'apply_each' for _, _, _, c in f.calls())
             rets = [x for _, _, _, x in f.elements() if x.get('k') == 'ret']
             v.check(ok and each and len(rets) == 1, 'R-EFFECT', inst, 'props_size() = Σ pv.byte_size() over the property tuple (apply_each)',
-                    key='C17:R-EFFECT:props_val:props_size', where=f.file)
+                    key=prop + ':R-EFFECT:props_val:props_size', where=f.file)
         else:
             sp = paths_of(fx, f, opaque=('props_size', 'apply_each'))
             sums = set()
@@ -268,7 +268,7 @@ def run(fx, v):
                 ok = len(sums) == 2 and any(o and "(0, [])" == r for o, r in sums) and any(
                     (not o) and 'psize' in r and 'size' in r for o, r in sums)
                 v.check(ok, 'R-EFFECT', inst, 'byte_size(): omitted → 0; else psize + SIZE(varlen_(psize)): %s' % sorted(sums),
-                        key='C17:R-EFFECT:props_val:byte_size', where=f.file)
+                        key=prop + ':R-EFFECT:props_val:byte_size', where=f.file)
             else:
                 enc_lam = False
                 for g in lam:
@@ -277,7 +277,7 @@ def run(fx, v):
                 ok = len(sums) == 2 and any(o and "(0, [])" == r for o, r in sums) and any(
                     (not o) and 'each-encode' in r and 'size' in r for o, r in sums) and enc_lam
                 v.check(ok, 'R-EFFECT', inst, 'encode(): omitted → nothing; else varlen_(psize) then every pv.encode(s): %s' % sorted(sums),
-                        key='C17:R-EFFECT:props_val:encode', where=f.file)
+                        key=prop + ':R-EFFECT:props_val:encode', where=f.file)
     if not seen:
         raise AnalysisBroken('props_val not instantiated')
 
@@ -322,4 +322,4 @@ def run(fx, v):
             'on all length boundaries (±2) the writer emits the MQTT 5 variable byte integer and variable_length() returns its size '
             '(values above 268,435,455 produce nothing and size 0)' if bad is None else
             'value %d: variable_length=%d, written %s, MQTT 5 encoding %s' % bad,
-            key='C17:R-EFFECT:varint', where=tv[0].file)
+            key=prop + ':R-EFFECT:varint', where=tv[0].file)
